@@ -133,6 +133,8 @@ VisitBound == O.maxredir + 1 + (IF O.auth > 0 THEN 1 ELSE 0)
 ReqViol(e) ==
   IF e.kind = "robots"
   THEN IF ~RobotsOn THEN 30                                         \* robots.txt fetched although checking is off
+       \* C02: the control file itself is exempt from the scope rules, the TARGET OF ITS REDIRECT is not
+       ELSE IF e.rj THEN 23
        ELSE IF e.h \in Hosts /\ robotsDone[e.h] THEN 31             \* C20: fetched again once obtained
        \* C02: the control file of an origin none of whose URLs may be visited (a URL that robots.txt itself
        \* forbids still counts: the file has to be read to learn that)
